@@ -63,7 +63,7 @@ ECommit(m, e) ==
                  !.anyLate = m.anyLate \/ late, !.now = e.now]
   ELSE m
 
-Faulty(kind) == kind \in {"badfmt", "bombstd", "bombint", "btnoinit"}
+Faulty(kind) == kind \in {"badfmt", "bombstd", "bombint", "btnoinit", "namedbomb"}
 
 ELogRet(m, e) ==
   LET s == m.st[e.id]
@@ -107,8 +107,16 @@ EWrite(m, e) ==
                   "timestamp order")
       \* C16: per-sink level filter and filters; the level reported is the level given
       m4 == Check(m3, "ok16", known => (e.lvl = s.lvl /\ ShouldReach(m, e.id, e.s)), "sink level / filter / reported level")
+      \* delivered statements are complete and uncorrupted (C03 C08 C10): message text = what the call site expects,
+      \* the structured named-args list belongs to this statement (none for a statement without named placeholders)
+      sane == e.intact /\ (known => e.nnamed = (IF s.kind = "named" THEN 2 ELSE 0))
+      m5 == Check(Check(Check(m4, "ok03", sane, "statement delivered corrupted or with another statement's named args"),
+                        "ok08", sane, "statement delivered corrupted"),
+                  "ok10", sane, "statement delivered corrupted or with another statement's named args")
+      \* C16: each sink receives the line formatted with its own override pattern if it has one, else the logger's
+      m6 == Check(m5, "ok16", e.fmt, "line not formatted with the sink's own / the logger's pattern")
       \* C10: a faulty statement may be written (with an error text) or skipped, everything else exactly as above
-  IN m4
+  IN m6
 
 ESinkFlush(m, e) ==
   LET k == m.sk[e.s]
